@@ -53,6 +53,18 @@ struct Out {
 }
 
 /// `text` = main file, optionally followed by `\x1e` and the text of `lib1.abra`
+/// a directory whose only file is the user's own `prelude.abra` (D94)
+struct UserPrelude;
+impl abra_core::FileProvider for UserPrelude {
+    fn search_for_file(&self, path: &std::path::Path, _is_root: bool) -> Result<abra_core::FileData, Box<dyn std::error::Error>> {
+        if path == std::path::Path::new("prelude.abra") {
+            Ok(abra_core::FileData::new("prelude".into(), "prelude.abra".into(), "println(1)\nlet x: int = \"s\"\n".to_string()))
+        } else {
+            Err("no such file".into())
+        }
+    }
+}
+
 fn analyze(text: &str) -> Out {
     let mut o = Out::default();
     let (text, lib) = match text.split_once('\x1e') {
@@ -145,6 +157,15 @@ fn deep_texts() -> Vec<(String, String)> {
         v.push((format!("long:stmts{n}"), "let a = 1\n".repeat(n)));
         v.push((format!("long:fns{n}"), (0..n).map(|i| format!("fn f{i}() -> int {{ {i} }}\n")).collect::<String>()));
     }
+    // D90: a frame with more than 16384 slots (register operands are 15 bits)
+    v.push(("long:locals17000".into(), {
+        let mut t = String::from("let x0 = 1\n");
+        for i in 1..17000 {
+            t.push_str(&format!("let x{i} = x{} + 1\n", i - 1));
+        }
+        t.push_str("println(x16999)\n");
+        t
+    }));
     v.push(("long:ident".into(), format!("let {} = 1\n", "a".repeat(20000))));
     v.push(("long:string".into(), format!("let s = \"{}\"\n", "é".repeat(20000))));
     v.push(("long:comment".into(), format!("// {}\nlet s = 1\n", "x".repeat(50000))));
@@ -312,6 +333,67 @@ fn main() {
             ctx.count(if o.lex.contains("| U/") || o.lex.contains("| E/") || o.lex.contains(" U/") { "lex:diagnostics" } else { "lex:clean" });
             let main_text = text.split('\x1e').next().unwrap_or("");
             ctx.case(format!("lex {} #{}", hex_str(main_text), label.replace(' ', "_")), o.lex.clone());
+        }
+    }
+    // the coverage witnesses with a known diagnostic: `check` must reject them with that message (in process; they
+    // went through the worker phase above, so a crash has already been reported there)
+    {
+        for (name, expect, text) in WITNESS_B {
+            if expect.is_empty() {
+                continue;
+            }
+            ctx.count("witness-oracle");
+            let r = catch_unwind(AssertUnwindSafe(|| abra_core::check("main.abra", provider(text, &[])).map_err(|e| e.to_string())));
+            match r {
+                Ok(Err(msg)) if msg.contains(expect) => {}
+                Ok(Err(msg)) => ctx.spec_fail(format!("witness {name}: the diagnostics {:?} do not contain {:?}; text {:?}", msg.chars().take(300).collect::<String>(), expect, text)),
+                Ok(Ok(())) => ctx.spec_fail(format!("witness {name} is accepted, expected the diagnostic {:?}; text {:?}", expect, text)),
+                Err(p) => ctx.spec_fail(format!("witness {name}: check panics ({}) on {:?}", panic_msg(p), text)),
+            }
+        }
+        // degenerate arguments of the entry points
+        let r = catch_unwind(|| {
+            let mut bad: Vec<String> = vec![];
+            // a main file that does not exist: an error with text, from all three entry points
+            let none = || abra_core::MockFileProvider::new(Default::default());
+            match abra_core::check("main.abra", none()) {
+                Ok(()) => bad.push("check accepts a main file that does not exist".into()),
+                Err(e) => {
+                    if e.to_string().trim().is_empty() || e.to_string_ansi().trim().is_empty() {
+                        bad.push("the error for a missing main file has no text".into());
+                    }
+                }
+            }
+            if abra_core::compile_bytecode("main.abra", none()).is_ok() {
+                bad.push("compile_bytecode accepts a main file that does not exist".into());
+            }
+            // to_string_ansi of ordinary diagnostics
+            if let Err(e) = abra_core::check("main.abra", provider("let x: int = \"s\"\nlet y = nothere\n", &[])) {
+                let (a, b) = (e.to_string_ansi(), e.to_string());
+                if a.trim().is_empty() || b.trim().is_empty() || !a.contains("nothere") && !b.contains("nothere") && !a.contains("resolve") {
+                    bad.push(format!("diagnostics render without their content: {:?}", a.chars().take(120).collect::<String>()));
+                }
+            } else {
+                bad.push("an ill-typed program is accepted".into());
+            }
+            // D94: a main file named prelude.abra is refused with a message, the built-in prelude itself is fine
+            match abra_core::check("prelude.abra", Box::new(UserPrelude)) {
+                Ok(()) => bad.push("D94: a main file named prelude.abra with a type error is accepted (silently skipped)".into()),
+                Err(e) => {
+                    if e.to_string().trim().is_empty() {
+                        bad.push("D94: the refusal of a main file named prelude.abra has no text".into());
+                    }
+                }
+            }
+            if abra_core::compile_bytecode("prelude.abra", Box::new(UserPrelude)).is_ok() {
+                bad.push("D94: compile_bytecode accepts a main file named prelude.abra with a type error".into());
+            }
+            bad
+        });
+        ctx.count("api-edge-cases");
+        match r {
+            Err(p) => ctx.spec_fail(format!("an entry point panics on a degenerate argument (missing main file / main file named prelude.abra / rendering of diagnostics): {}", panic_msg(p))),
+            Ok(bad) => bad.into_iter().for_each(|b| ctx.spec_fail(b)),
         }
     }
     for (s, n) in &seen {
